@@ -2215,6 +2215,7 @@ class IrregularLattice(Lattice):
             self._mps_fix_u.append(mps_fix_u)
         self._mps_fix_u = tuple(self._mps_fix_u)
         self.N_sites = len(order_)
+        self._mps_sites_cache = None
         _, counts = np.unique(order_[:, 0], return_counts=True)
         if np.all(counts == counts[0]):
             self.N_sites_per_ring = counts[0]
@@ -2391,6 +2392,7 @@ class HelicalLattice(Lattice):
         # very similar to IrregularLattice.order setter
         self._order = np.array(order_, dtype=np.intp)
         assert len(order_) == len(self.unit_cell) * self._N_cells
+        self._mps_sites_cache = None
 
         # this defines `self._perm`
         perm = np.full([np.prod(self.shape)], self._REMOVED)
